@@ -104,7 +104,7 @@ class Wavefunction:
             )
             probs_of_ground_entries = np.sum(np.abs(numbers) ** 2)
 
-            if probs_of_ground_entries > 1.0:
+            if not probs_of_ground_entries <= 1.0:
                 raise ValueError(
                     "Ground entries in vector already exceeding probability of 1.0!"
                 )
@@ -127,7 +127,9 @@ class Wavefunction:
 
         try:
             self._check_normalization(self._amplitude_vector)
-        except ValueError:
+        except Exception:
+            # Whatever stops the check (a ValueError, or sympy refusing to compare a NaN
+            # entry) the rejected assignment must not stay in the vector.
             self._amplitude_vector[idx] = old_val
 
             raise ValueError("This assignment violates probability unity.")
